@@ -218,7 +218,39 @@ inline RCP<const Basic> build(const Json &r, const Pool &pool, int depth = 0)
         uint64_t bits = strtoull(r.size() > 1 ? r[1].s.c_str() : "0", nullptr, 16);
         double d;
         memcpy(&d, &bits, sizeof d);
-        return real_double(d);
+        // the object is built directly: a factory that normalises its
+        // argument must not stand between the bit pattern and the node
+        return make_rcp<const RealDouble>(d);
+    }
+    if (op == "cdblbits") { // ["cdblbits", hexre, hexim]
+        uint64_t b1 = strtoull(r.size() > 1 ? r[1].s.c_str() : "0", nullptr, 16);
+        uint64_t b2 = strtoull(r.size() > 2 ? r[2].s.c_str() : "3ff0000000000000", nullptr, 16);
+        double re, im;
+        memcpy(&re, &b1, sizeof re);
+        memcpy(&im, &b2, sizeof im);
+        return make_rcp<const ComplexDouble>(std::complex<double>(re, im));
+    }
+    if (op == "twins") { // ["twins", kind, k]: two values that agree in everything a hash reads
+        int64_t k = geti(2);
+        integer_class big(1);
+        big = big << 64;
+        big = big + integer_class((long)k);
+        RCP<const Basic> a = integer((long)k), b = integer(big), x = sym_n(geti(3));
+        switch (geti(1) % 4) {
+            case 0:
+                return finiteset({a, b, x});
+            case 1:
+                return mul(pow(a, x), pow(b, x));
+            case 2: {
+                set_boolean sb;
+                sb.insert(Lt(x, a));
+                sb.insert(Lt(x, b));
+                sb.insert(Gt(x, integer(-1000)));
+                return geti(4) % 2 ? (RCP<const Basic>)logical_and(sb) : (RCP<const Basic>)logical_or(sb);
+            }
+            default:
+                return function_symbol("h", {add(a, x), add(b, x), b, a});
+        }
     }
     if (op == "cplx") {
         int64_t q1 = geti(2, 1), q2 = geti(4, 1);
@@ -545,8 +577,8 @@ inline Json rnum(Rng &g, const Profile &p, int depth, size_t poolsize)
             Json e = Json::array();
             if (g.chance(1, 3)) {
                 e.push("rat");
-                e.push((long long)g.range(-3, 3));
-                e.push(2);
+                e.push((long long)g.range(-7, 7));
+                e.push((long long)(g.chance(3, 4) ? 2 : 3));
             } else {
                 e.push("int");
                 e.push((long long)g.range(-3, 4));
@@ -738,6 +770,30 @@ inline Json rallnum_leaf(Rng &g, size_t poolsize)
         case 18:
             r.push("nan");
             return r;
+        case 20:
+            if (g.chance(1, 2)) { // names no identifier grammar would accept
+                static const char *nm[] = {"a b", "flow rate", "x\ty", "", "\xce\xbc", "a+b", "f(x)", "\"q\"",
+                                           " lead", "trail ", "x\ny", "'s'", "1x", "x,y"};
+                r.push("symn");
+                r.push(nm[g.below(sizeof nm / sizeof nm[0])]);
+                return r;
+            }
+            if (g.chance(1, 2)) {
+                r.push("twins");
+                r.push((long long)g.below(4));
+                r.push((long long)g.range(-9, 9));
+                r.push((long long)g.below(4));
+                r.push((long long)g.below(2));
+                return r;
+            }
+            {
+                static const char *bits[] = {"8000000000000000", "0000000000000000", "3ff8000000000000",
+                                             "bfe0000000000000", "0000000000000001"};
+                r.push("cdblbits");
+                r.push(bits[g.below(5)]);
+                r.push(bits[g.below(5)]);
+                return r;
+            }
         case 19:
             r.push("dummy");
             r.push((long long)g.below(6));
